@@ -561,9 +561,56 @@ def scratch(rep, c, sfx):
                        and hirq.field_write_target(n)[1] == "position"]
             for a in commits:
                 gs = ctx.guards(a)
-                if not any(g[0] == "if" and g[2] is True for g in gs):
+                if any(g[0] == "if" and g[2] is True for g in gs):
+                    continue
+                # not under an `if`: decide path by path - on every path that reaches the commit, each matcher call has
+                # been seen to succeed (its result, or the local it was stored in, tested with the success polarity)
+                if not commit_only_after_success(fn, a, movers):
                     r.violation("%s:commit" % fn["path"].split("::")[-1], where(a), "the scratch position is "
                                 "committed unconditionally")
+
+
+def commit_only_after_success(fn, commit, movers):
+    def polarity(cond_node, target_pred):
+        """+1 if cond true means target succeeded, -1 if it means failure, 0 if the cond does not test it."""
+        c0 = peel(cond_node)
+        if target_pred(c0):
+            return 1
+        if kind(c0) == "Unary" and c0["op"] == "!" and target_pred(peel(c0["e"])):
+            return -1
+        return 0
+    saw = False
+    for (ev, out) in exits(PathEnum(fn).paths()):
+        ci = hirq.index_of(ev, lambda e: e.kind == "assign" and e.node is commit)
+        if ci < 0:
+            continue
+        saw = True
+        for i, e in enumerate(ev[:ci]):
+            if not (e.kind == "call" and kind(e.node) == "MethodCall" and e.node.get("path") in movers):
+                continue
+            call = e.node
+            ok = False
+            # the local the result is stored in, if any
+            stored = None
+            for e2 in ev[i:ci]:
+                if e2.kind == "assign" and peel(e2.node["r"]) is call:
+                    stored = hirq.local_id(e2.node["l"])
+                if e2.kind == "let" and e2.node.get("init") is not None and peel(e2.node["init"]) is call \
+                        and e2.node["pat"].get("k") == "PBind":
+                    stored = e2.node["pat"]["id"]
+            for e2 in ev[i:ci]:
+                if e2.kind != "cond":
+                    continue
+                pol = polarity(e2.node, lambda x: x is call or (stored is not None and kind(x) == "Path"
+                                                               and x.get("res") == "local" and x["id"] == stored))
+                if pol and ((pol > 0) == bool(e2.extra)):
+                    ok = True
+                elif pol:
+                    ok = False
+                    break
+            if not ok:
+                return False
+    return saw
 
 
 # ------------------------------------------------------------------ SKIPARMS
